@@ -53,7 +53,8 @@ func zzSliceUnchanged(s []interface{}, mirror []int64) bool {
 
 // zzIndexOperand returns an index operand of class c and its integer reading
 // (valid=false: the class is not a number).
-//   0 int64  1 float64 (truncated)  2 nil  3 non-numeral string  4 container  5 int32  6 bool
+//
+//	0 int64  1 float64 (truncated)  2 nil  3 non-numeral string  4 container  5 int32  6 bool
 func zzIndexOperand(c int) (v interface{}, asInt int, numeric bool) {
 	switch c {
 	case 0:
@@ -331,7 +332,15 @@ func ZZ_C10_map() {
 	unhashable := zz.Choose(4) == 0
 	var key interface{}
 	if unhashable {
-		key = []interface{}{int64(1)}
+		// a bare slice, and composites that merely contain an unhashable part
+		switch zz.Choose(3) {
+		case 0:
+			key = []interface{}{int64(1)}
+		case 1:
+			key = zzPair{A: 1, B: []int64{1}}
+		case 2:
+			key = [1]interface{}{[]int64{1}}
+		}
 	} else {
 		key = zzKeyPool[zz.Choose(len(zzKeyPool))]
 	}
